@@ -62,7 +62,32 @@ pub fn d_lits(x: &S) -> Vec<(BddVariable, bool)> {
         })
         .collect()
 }
-pub fn d_bdd(x: &S) -> Bdd {
+thread_local! {
+    /// operands decoded in the current case: textually identical operands are handed out as ONE object when sharing is on,
+    /// so that `f.and(&f)`-style aliasing (the same reference in two operand positions) is exercised
+    static BDD_CACHE: std::cell::RefCell<Vec<(S, std::rc::Rc<Bdd>)>> = std::cell::RefCell::new(Vec::new());
+    static SHARE: std::cell::Cell<bool> = std::cell::Cell::new(false);
+}
+/// called by main before every case: identical operands share one object in three cases out of four
+pub fn begin_case(id: &str) {
+    BDD_CACHE.with(|c| c.borrow_mut().clear());
+    let k: u32 = id.bytes().map(|b| b as u32).sum();
+    SHARE.with(|s| s.set(k % 4 != 0));
+}
+pub fn d_bdd(x: &S) -> std::rc::Rc<Bdd> {
+    let share = SHARE.with(|s| s.get());
+    if share {
+        if let Some(hit) = BDD_CACHE.with(|c| c.borrow().iter().find(|(k, _)| k == x).map(|(_, v)| v.clone())) {
+            return hit;
+        }
+    }
+    let b = std::rc::Rc::new(d_bdd_fresh(x));
+    if share {
+        BDD_CACHE.with(|c| c.borrow_mut().push((x.clone(), b.clone())));
+    }
+    b
+}
+pub fn d_bdd_fresh(x: &S) -> Bdd {
     let it = d_items(x, "b");
     if it.len() % 3 != 0 {
         bad("bdd triples", x)
@@ -524,9 +549,9 @@ pub fn run(c: &[S]) -> S {
         "to_cnf" => S::list("L", d_bdd(&a[0]).to_cnf().iter().map(e_pv).collect()),
         "to_opt_dnf" => S::list("L", d_bdd(&a[0]).to_optimized_dnf().iter().map(e_pv).collect()),
         "sat_clauses" => S::list("L", d_bdd(&a[0]).sat_clauses().map(|p| e_pv(&p)).collect()),
-        "into_sat_clauses" => S::list("L", d_bdd(&a[0]).into_sat_clauses().map(|p| e_pv(&p)).collect()),
+        "into_sat_clauses" => S::list("L", d_bdd_fresh(&a[0]).into_sat_clauses().map(|p| e_pv(&p)).collect()),
         "sat_valuations" => S::list("L", d_bdd(&a[0]).sat_valuations().map(|p| e_valuation(&p)).collect()),
-        "into_sat_valuations" => S::list("L", d_bdd(&a[0]).into_sat_valuations().map(|p| e_valuation(&p)).collect()),
+        "into_sat_valuations" => S::list("L", d_bdd_fresh(&a[0]).into_sat_valuations().map(|p| e_valuation(&p)).collect()),
         "clause_valuations" => {
             let it = ValuationsOfClauseIterator::new(d_pv(&a[0]), d_u16(&a[1]));
             S::list("L", it.map(|p| e_valuation(&p)).collect())
@@ -534,7 +559,7 @@ pub fn run(c: &[S]) -> S {
         "owned_back" => {
             // take k steps of each owned iterator and give the Bdd back
             let k = d_usize(&a[1]);
-            let b = d_bdd(&a[0]);
+            let b = d_bdd_fresh(&a[0]);
             let mut it = b.clone().into_sat_valuations();
             for _ in 0..k {
                 it.next();
@@ -580,7 +605,7 @@ pub fn run(c: &[S]) -> S {
             Err(_) => S::atom("ERR"),
         },
         "to_nodes" => {
-            let nodes = d_bdd(&a[0]).to_nodes();
+            let nodes = d_bdd_fresh(&a[0]).to_nodes();
             e_bdd(&Bdd::verif_from_raw(nodes))
         }
         "validate" => match d_bdd(&a[0]).validate() {
@@ -589,12 +614,12 @@ pub fn run(c: &[S]) -> S {
         },
         // ---- renaming
         "rename_var" => {
-            let mut b = d_bdd(&a[0]);
+            let mut b = d_bdd_fresh(&a[0]);
             unsafe { b.rename_variable(d_var(&a[1]), d_var(&a[2])) };
             e_bdd(&b)
         }
         "rename_vars" => {
-            let mut b = d_bdd(&a[0]);
+            let mut b = d_bdd_fresh(&a[0]);
             let map: std::collections::HashMap<BddVariable, BddVariable> = d_items(&a[1], "L")
                 .iter()
                 .map(|p| {
@@ -606,7 +631,7 @@ pub fn run(c: &[S]) -> S {
             e_bdd(&b)
         }
         "set_num_vars" => {
-            let mut b = d_bdd(&a[0]);
+            let mut b = d_bdd_fresh(&a[0]);
             unsafe { b.set_num_vars(d_u16(&a[1])) };
             e_bdd(&b)
         }
